@@ -576,9 +576,17 @@ struct FlattenPaths(usize);
 impl VisitMut for FlattenPaths {
     fn visit_path_mut(&mut self, p: &mut syn::Path) {
         syn::visit_mut::visit_path_mut(self, p);
+        if p.segments.len() == 3 && p.segments[0].ident == "std" && p.segments[1].ident == "fs" {
+            // `std::fs::f` names the unit's trusted file-system stub `vfs_f` (TB-8)
+            let last = syn::Ident::new(&format!("vfs_{}", p.segments[2].ident), Span::call_site());
+            let mut np = syn::punctuated::Punctuated::new();
+            np.push(syn::PathSegment::from(last));
+            p.segments = np; p.leading_colon = None; self.0 += 1;
+            return;
+        }
         if p.segments.len() > 2 {
             let first = p.segments[0].ident.to_string();
-            if first == "crate" || first == "plonky2" {
+            if first == "crate" || first == "plonky2" || (first == "std" && p.segments[1].ident == "path") {
                 let last = p.segments.last().unwrap().clone();
                 let mut np = syn::punctuated::Punctuated::new();
                 np.push(last);
@@ -837,6 +845,7 @@ fn main() {
                 }
                 // structs: every field made `pub` (the unit is one crate; privacy is not what is being verified)
                 if let syn::Item::Enum(en) = &mut it { en.vis = syn::Visibility::Public(Default::default()); }
+                if let syn::Item::Const(c) = &mut it { c.vis = syn::Visibility::Public(Default::default()); }
                 if let syn::Item::Struct(st) = &mut it {
                     let mut widened = !matches!(st.vis, syn::Visibility::Public(_));
                     st.vis = syn::Visibility::Public(Default::default());
